@@ -401,7 +401,7 @@ func e13Case(seed uint64, scen int, trig, state string, fireStep, k, K int) Case
 func init() {
 	register("E13", func(tier string, seed uint64) []Case {
 		var cases []Case
-		ns := tierPick(tier, 2, 30)
+		ns := tierPick(tier, 2, 60)
 		K := tierPick(tier, 24, 160)
 		for sc := 0; sc < ns; sc++ {
 			for si, st := range e13States {
